@@ -95,14 +95,14 @@ def random_case(rng, tier):
         program = programs.gen_process_program(rng, PROGRAM_CFG)
         ticks, notify, _ = common.dry_run(program)
         schedule = common.gen_schedule(rng, ['resume', 'resume', 'pause', 'play'], max_actions, ticks, notify,
-                                       p_listener=0.0, p_same=0.6, must=['resume'])
+                                       p_listener=0.2 if rng.random() < 0.5 else 0.0, p_same=0.6, must=['resume'])
     else:
         n_futures = rng.randint(1, 3)
         durations = [rng.choice([0, 0.5, 1]) for _ in range(rng.choice([0, 0, 1, 2]))]
         program = wc_program(n_futures, rng.choice(['ret', 'call', 'both']), durations)
         ticks, notify, _ = common.dry_run(program)
         schedule = common.gen_schedule(rng, ['complete', 'complete', 'pause', 'play'], max_actions, ticks + 2, notify,
-                                       p_listener=0.0, p_same=0.6, must=['complete'])
+                                       p_listener=0.2 if rng.random() < 0.5 else 0.0, p_same=0.6, must=['complete'])
         order = list(range(n_futures))
         rng.shuffle(order)
         nxt = 0
@@ -110,6 +110,12 @@ def random_case(rng, tier):
             if action['act'] == 'complete':
                 action.update(fut=order[nxt % n_futures], how='value', v=f'v{order[nxt % n_futures]}')
                 nxt += 1
+    for action in schedule:
+        # pauses are also requested from inside the listener notifications of state transitions (e.g. of the very
+        # transition into WAITING); wake-ups and plays stay between loop callbacks
+        if 'on' in action and (action['act'] != 'pause' or action['on'][0] in ('played', 'paused')):
+            action.pop('on')
+            action['at'] = rng.randint(0, ticks + 1)
     return {'program': program, 'schedule': schedule, 'opts': {}}
 
 
